@@ -130,6 +130,52 @@ CLAIMED = {
     ),
 }
 
+# Entries below take their level text from the rule module's EXPLANATION (tools/gen_manifest.py).
+CLAIMED.update({
+    "C07": dict(
+        level="other",
+        note="Trusted: CPython ast; the frozen who-may-consume table (a new consumer is a violation until read). Not decided: "
+        "arrival timing, and that the peer receives the response (transport).",
+        technique="who-may-call enumeration + function summary + path typestate (consume => answer) over a hand-built CFG (ast)",
+        ref="4/C07",
+    ),
+    "C09": dict(
+        level="proof",
+        note="Trusted: CPython ast; time.monotonic's contract. The two users of Timer only call start/stop/restart and read "
+        ".expired/.remaining (checked). 'proof' because Timer is five straight-line methods evaluated symbolically over all 8 "
+        "flag combinations.",
+        technique="clock-source dataflow + symbolic (linear) evaluation of straight-line methods against a reference (ast)",
+        ref="4/C09",
+    ),
+    "C16": dict(
+        level="proof",
+        note="Trusted: CPython ast; BytesIO truthiness (an object without __bool__/__len__ is truthy). The abstract domain is "
+        "finite and explored exhaustively; an unmodelled statement in either function is ANALYSIS-ERROR.",
+        technique="abstract interpretation of two functions over a finite product domain, predicate agreement on every point; who-writes/who-calls queries (ast)",
+        ref="4/C16",
+    ),
+    "C20": dict(
+        level="other",
+        note="Trusted: CPython ast; the statically extracted code_to_category chain (C28). Not decided: what the DIMSE provider "
+        "does with the response after send_msg; abort/release races between the SCP and the peer.",
+        technique="final-response typestate over a hand-built CFG with exception edges and a suppressing context manager (ast)",
+        ref="4/C20",
+    ),
+    "C22": dict(
+        level="other",
+        note="Trusted: CPython ast; statically evaluated STORAGE_SERVICE_CLASS_STATUS categories. Not decided: the C-STORE "
+        "sub-operation itself (C18/C24) and the handler's announced N being truthful.",
+        technique="conservation-law dataflow (delta-vector typestate) over a hand-built CFG; sibling comparison (ast)",
+        ref="4/C22",
+    ),
+    "C24": dict(
+        level="other",
+        note="Trusted: CPython ast. Not decided: what the peer sends, timing, and which other locks user code holds.",
+        technique="path typestate over a hand-built CFG (yield counting, checkpoint must-pass) + lexical lock-region containment (ast)",
+        ref="4/C24",
+    ),
+})
+
 PENDING = "designed in DESIGN.md section 4, checker not built yet - not claimed through a stub"
 
 NOT_APPLICABLE = {
